@@ -90,22 +90,33 @@ impl fmt::Debug for Response {
 }
 
 /// A cache for field names used in responses.
+///
+/// Since this is the part of the parsing state that lives as long as the connection, it also
+/// keeps the already parsed parts of a response whose receipt was interrupted.
 #[derive(Clone, Debug)]
-pub(crate) struct ResponseFieldCache(HashSet<Arc<str>, ahash::RandomState>);
+pub(crate) struct ResponseFieldCache {
+    keys: HashSet<Arc<str>, ahash::RandomState>,
+    /// State of a [`ResponseBuilder`] that was dropped in the middle of a response (because the
+    /// receiving future was dropped or an error occurred), resumed by the next builder.
+    interrupted: Option<ResponseState>,
+}
 
 impl ResponseFieldCache {
     /// Returns a new, empty cache.
     pub(crate) fn new() -> ResponseFieldCache {
-        ResponseFieldCache(HashSet::default())
+        ResponseFieldCache {
+            keys: HashSet::default(),
+            interrupted: None,
+        }
     }
 
     /// Insert a field name into the cache or retrieve a reference to an already existing entry.
     pub(crate) fn insert(&mut self, key: &str) -> Arc<str> {
-        if let Some(k) = self.0.get(key) {
+        if let Some(k) = self.keys.get(key) {
             Arc::clone(k)
         } else {
             let k = Arc::from(key);
-            self.0.insert(Arc::clone(&k));
+            self.keys.insert(Arc::clone(&k));
             k
         }
     }
@@ -131,10 +142,13 @@ enum ResponseState {
 
 impl<'a> ResponseBuilder<'a> {
     pub(crate) fn new(field_cache: &'a mut ResponseFieldCache) -> Self {
-        Self {
-            field_cache,
-            state: ResponseState::Initial,
-        }
+        // Continue a response that a previous builder had to leave unfinished
+        let state = field_cache
+            .interrupted
+            .take()
+            .unwrap_or(ResponseState::Initial);
+
+        Self { field_cache, state }
     }
 
     pub(crate) fn parse(
@@ -251,6 +265,18 @@ impl<'a> ResponseBuilder<'a> {
                 frames: completed_frames,
                 error: Some(error),
             },
+        }
+    }
+}
+
+impl Drop for ResponseBuilder<'_> {
+    fn drop(&mut self) {
+        // The parts parsed so far have already been removed from the receive buffer. Keep them
+        // for the next builder, otherwise they would be lost when receiving is interrupted (e.g.
+        // a receive future dropped by `select!`).
+        if self.state != ResponseState::Initial {
+            let state = mem::replace(&mut self.state, ResponseState::Initial);
+            self.field_cache.interrupted = Some(state);
         }
     }
 }
